@@ -202,7 +202,15 @@ impl Property for C17 {
                     }
                 }
             }
-            let world = if rng.chance(1, 4) { World::random(rng, &["rand", "spelling", "file_name", "cwd_name", "rel"]) } else { World::reference() };
+            let mut world = if rng.chance(1, 3) { World::random(rng, &["rand", "spelling", "file_name", "cwd_name", "rel", "stdout", "stderr", "merged"]) } else { World::reference() };
+            // a closed fd swallows writes silently (std treats EBADF on stdio as success): not a sink-fault world
+            if world.stdout == 3 {
+                world.stdout = 5;
+            }
+            if world.stderr == 3 {
+                world.stderr = 1;
+            }
+            world.normalize();
             Case { label: p.label, program: p.program, aux: p.aux, world, plan }
         } else {
             let p = if rng.chance(1, 4) { programs::pick_w4(ctx, rng) } else { programs::pick_w1(ctx, rng) };
